@@ -39,6 +39,7 @@ type LoopContract struct {
 	Path       string
 	Invariants []*Clause
 	Steps      []*Clause
+	Entries    []*Clause // checked where the loop is reached; not assumed inside or after it
 	Decreases  *Clause
 	Modifies   []string
 }
@@ -319,6 +320,10 @@ func ParseContracts(path string) (*Contracts, error) {
 					cl := c.newClause("step", r3, it.line)
 					cl.Loop = lp
 					lc.Steps = append(lc.Steps, cl)
+				case "entry":
+					cl := c.newClause("entry", r3, it.line)
+					cl.Loop = lp
+					lc.Entries = append(lc.Entries, cl)
 				case "decreases":
 					cl := c.newClause("decreases", r3, it.line)
 					cl.Loop = lp
